@@ -69,8 +69,10 @@ func genC01(t *rapid.T) *vnet.Scenario {
 // runC01 executes the scenario in a bubble and returns a violation (or "").
 func runC01(t *testing.T, sc *vnet.Scenario) (violation string, tail []string, labels []string, nontrivial bool) {
 	var env *vnet.Env
+	mon := &windowMonitor{s: sc.N + 1}
 	out := vnet.InBubble(t, bubbleWatchdog, func() {
 		env = vnet.NewEnv(sc)
+		env.Trace.Observers = append(env.Trace.Observers, mon.observe)
 		env.StartHandshake()
 		if !env.WaitHandshake(120 * time.Second) {
 			labels = append(labels, "handshake_incomplete")
@@ -124,6 +126,18 @@ func runC01(t *testing.T, sc *vnet.Scenario) (violation string, tail []string, l
 	if ti.nack {
 		labels = append(labels, "nack_seen")
 	}
+	mon.mu.Lock()
+	if mon.cumAck > 0 {
+		labels = append(labels, "ack_lost_then_cumulative")
+	}
+	if mon.nackBump > 0 {
+		labels = append(labels, "nack_moved_base")
+	}
+	if mon.viol != "" && violation == "" {
+		// the wire monitor of C09 runs here too
+		violation = "window exceeded: " + mon.viol
+	}
+	mon.mu.Unlock()
 	if len(sc.C2S) > 0 && len(sc.S2C) > 0 {
 		labels = append(labels, "bidirectional")
 	}
